@@ -127,6 +127,8 @@ class CWorld(object):
             if o == "xy":
                 ops.append(("around", self.sources[0][0], ("data", "alt")))
                 ops.append(("around", self.sources[0][0], ("x", "alt")))
+        if o in ("indexed", "xy", "hist") and not getattr(self, "forked", False):
+            ops.append(("fork",))
         if o == "indexed":
             ops += [("data", "alt"), ("data", "mixed")]
         elif o == "xy":
@@ -189,6 +191,23 @@ class CWorld(object):
                 c.fill(list(b))
                 self.entries = self.entries + list(b)
                 self.vals["y"] = hist_counts(self.entries, self.edges)
+            elif k == "fork":
+                # continue with a deep copy (as a fit does with the container it is given) and change the values of the ORIGINAL:
+                # the copy's uncertainties refer to the copy's own values
+                import copy
+
+                orig = c
+                self.c = copy.deepcopy(orig)
+                self.forked = True
+                if self.obj == "indexed":
+                    orig.data = val.y_alt
+                elif self.obj == "xy":
+                    orig.y = val.y_alt
+                    orig.x = val.x_alt
+                elif not getattr(self, "manual", False):
+                    orig.fill(list(FILL1))
+                else:
+                    orig.set_bins([9.0, 9.0, 9.0, 9.0, 9.0])
             elif k == "setbins":
                 h = [7.0, 3.0, 9.0, 1.0, 4.0] if op[1] == 1 else [2.0, 8.0, 5.0, 6.0, 3.0]
                 c.set_bins(list(h), underflow=2, overflow=1)
